@@ -408,14 +408,20 @@ def check_bip21(case):
         raise Violation("bip21:round-trip", f"{uri!r} -> {back}")
     # 2. an independent reader of what the library wrote
     head, _, query = uri.partition("?")
-    if head != "bitcoin:" + addr:
+    scheme, _, written_addr = head.partition(":")
+    if scheme.lower() != "bitcoin" or written_addr != addr:  # RFC 3986: the scheme is case-insensitive
         raise Violation("bip21:scheme-or-address-written", uri[:80])
     fields = {}
     for element in query.split("&") if query else []:
         k, _, v = element.partition("=")
-        if any(ch not in UNRESERVED and ch not in "%!$'()*+,;:@/" for ch in k + v):
+        # RFC 3986's query characters less BIP21's two separators: no control, blank or non-ASCII character, no '#', '&' or '=', no '[', ']' or other
+        # excluded delimiter, and every '%' starts an escape (which of the allowed characters a writer escapes anyway is its own choice)
+        if any(ch not in UNRESERVED and ch not in "%!$'()*+,;:@/?" for ch in k + v):
             raise Violation("bip21:unescaped-character-written", f"{element!r} in {uri!r}")
-        fields[pct_decode(k)] = pct_decode(v)
+        try:
+            fields[pct_decode(k)] = pct_decode(v)
+        except (ValueError, UnicodeDecodeError):
+            raise Violation("bip21:malformed-escape-written", f"{element!r} in {uri!r}") from None
     want = dict(others)
     if amount is not None:
         if Decimal(fields.get("amount", "x") if fields.get("amount", "x").replace(".", "").isdigit() else "NaN") != amount:
@@ -470,10 +476,23 @@ def check_bip21(case):
 
 
 # ---------------------------------------------------------------- WIF and extended keys
+VERSIONS = []  # (name, prv, pub): BIP32's and SLIP132's version pairs of every network
+for _net in NETWORKS.values():
+    for _k in ("bip32", "slip132_p2wpkh", "slip132_p2wpkh_p2sh", "slip132_p2wsh", "slip132_p2wsh_p2sh"):
+        _pair = (getattr(_net, _k + "_prv"), getattr(_net, _k + "_pub"))
+        if _pair not in [v[1:] for v in VERSIONS]:
+            VERSIONS.append((_k, *_pair))
+
+# checksummed payloads that are not a WIF / not an address: the structure behind the checksum is under test too
+WIF_EDITS = ["none", "none", "body-31", "body-33", "suffix-00", "suffix-02", "two-suffix", "q=0", "q=n", "q=max", "foreign-prefix", "p2pkh-prefix"]
+ADDR_EDITS = ["none", "hash-19", "hash-21", "unknown-version", "wif-version", "empty-hash", "xkey-length"]
+
+
 @st.composite
 def keys_case(draw):
     return {"q": draw(st.one_of(st.sampled_from([1, N - 1]), st.integers(1, N - 1))), "net": draw(st.sampled_from(NETS)), "compressed": draw(st.booleans()),
             "mut": draw(st.sampled_from(MUT_KINDS)), "pos": draw(st.integers(0, 120)), "ch": draw(st.sampled_from(B58_CHARS)),
+            "wif_edit": draw(st.sampled_from(WIF_EDITS)), "addr_edit": draw(st.sampled_from(ADDR_EDITS)), "h": draw(st.binary(min_size=22, max_size=22)).hex(), "p2sh": draw(st.booleans()),
             "xkey": {"depth": draw(st.integers(0, 255)), "fp": draw(st.binary(min_size=4, max_size=4)).hex(), "index": draw(st.integers(0, 2**32 - 1)), "cc": draw(st.binary(min_size=32, max_size=32)).hex(),
                      "version": draw(st.integers(0, 40))}}
 
@@ -500,8 +519,46 @@ def check_keys(case):
             raise Violation(f"keys:wif-verdict:{case['mut']}:lib={got_ok}:ref={model_ok}", s)
         if got_ok and (r[0] != int.from_bytes(pl[1:33], "big") or r[2] != (len(pl) == 34)):
             raise Violation("keys:wif-decoded-value", s)
+    tags = []
+    # the structure behind a right checksum: a WIF is prefix + 32 bytes (+ 01), 0 < q < n, and nothing else
+    we = case.get("wif_edit", "none")
+    if we != "none":
+        prefix, body = NETWORKS[net].wif, q.to_bytes(32, "big")
+        suffix = b"\x01" if compr else b""
+        payload = {"body-31": prefix + body[1:] + suffix, "body-33": prefix + body + b"\x07" + suffix if compr else prefix + body + b"\x07\x07", "suffix-00": prefix + body + b"\x00", "suffix-02": prefix + body + b"\x02",
+                   "two-suffix": prefix + body + b"\x01\x01", "q=0": prefix + bytes(32) + suffix, "q=n": prefix + N.to_bytes(32, "big") + suffix, "q=max": prefix + b"\xff" * 32 + suffix,
+                   "foreign-prefix": bytes([(prefix[0] + 1) % 256 if bytes([(prefix[0] + 1) % 256]) not in {n_.wif for n_ in NETWORKS.values()} else 0x55]) + body + suffix,
+                   "p2pkh-prefix": NETWORKS[net].p2pkh + body + suffix}[we]
+        s = b58ref.check_encode(payload)
+        model_ok = len(payload) in (33, 34) and payload[:1] in {n_.wif for n_ in NETWORKS.values()} and (len(payload) == 33 or payload[-1] == 1) and 0 < int.from_bytes(payload[1:33], "big") < N
+        try:
+            r = prv_keyinfo_from_prv_key(s)
+            got_ok = True
+        except REFUSAL:
+            got_ok = False
+        if got_ok != model_ok:
+            raise Violation(f"keys:wif-structure:{we}:lib={got_ok}:ref={model_ok}", s)
+        if got_ok and (r[0] != int.from_bytes(payload[1:33], "big") or r[2] != (len(payload) == 34)):
+            raise Violation("keys:wif-decoded-value", s)
+        tags.append(f"wif-{we}:{'accepted' if got_ok else 'refused'}")
+    # and a base58 address is a known version byte + 20 bytes
+    ae = case.get("addr_edit", "none")
+    if ae != "none":
+        hh = bytes.fromhex(case["h"])
+        good = NETWORKS[net].p2sh if case["p2sh"] else NETWORKS[net].p2pkh
+        known = {n_.p2pkh for n_ in NETWORKS.values()} | {n_.p2sh for n_ in NETWORKS.values()}
+        unknown = next(bytes([v]) for v in range(case["pos"] % 256, case["pos"] % 256 + 256) if bytes([v % 256]) not in known and bytes([v % 256]) not in {n_.wif for n_ in NETWORKS.values()})
+        payload = {"hash-19": good + hh[:19], "hash-21": good + hh[:21], "unknown-version": bytes([unknown[0] % 256]) + hh[:20], "wif-version": NETWORKS[net].wif + hh[:20], "empty-hash": good,
+                   "xkey-length": good + hh + hh + hh + hh[:11]}[ae]
+        s = b58ref.check_encode(payload)
+        for what, fn in (("h160_from_address", lambda: b58.h160_from_address(s)), ("ScriptPubKey.from_address", lambda: ScriptPubKey.from_address(s))):
+            try:
+                r = fn()
+            except REFUSAL:
+                continue
+            raise Violation(f"keys:address-structure:{ae}:{what}-accepted", f"{s} -> {r!r:.120}")
+        tags.append(f"addr-{ae}")
     # extended keys: serialize/b58 round trip with every version
-    from checks.C07 import VERSIONS
     xk = case["xkey"]
     _, vprv, vpub = VERSIONS[xk["version"] % len(VERSIONS)]
     depth, fp, index = xk["depth"], bytes.fromhex(xk["fp"]), xk["index"]
@@ -533,7 +590,7 @@ def check_keys(case):
                     raise Violation(f"keys:xkey-corrupted-accepted:{case['mut']}", t2)
             except BTClibValueError:
                 pass
-    return Outcome(True, (case["mut"], net))
+    return Outcome(True, (case["mut"], net, *tags))
 
 
 # ---------------------------------------------------------------- ripemd160 fallback
@@ -557,8 +614,8 @@ SUBCHECKS = [
     SubCheck("bech32_lowlevel", check_bech32, "bech32.encode equals the reference and decodes back (lower and upper case)", bech32_case, quick=1500, thorough=15000),
     SubCheck("address_inverse", check_address, "address(spk) equals the reference string and from_address gives spk back, network of the same type and prefix", address_case, quick=8000, thorough=60000),
     SubCheck("bip21", check_bip21, "bitcoin: URIs over every address type x network, amounts 0..21e14 sat, unicode / reserved-character labels, messages and extra parameters: parse(serialize(x)) == x, an independent RFC 3986 reader recovers every field from what the library wrote, the library reads what an independent writer wrote (any scheme case, any parameter order), network type read off the address; exponent / signed / comma / over-range / sub-satoshi amounts, req- parameters, other schemes, malformed escapes and a corrupted address are refused; non-trivial: at least one parameter", bip21_case, quick=4000, thorough=40000),
-    SubCheck("keys", check_keys, "WIF and xprv/xpub (all BIP32/SLIP132 versions): encode = reference, decode inverse, mutated strings accepted iff the reference accepts", keys_case, quick=3000, thorough=30000),
+    SubCheck("keys", check_keys, "WIF and xprv/xpub (all BIP32/SLIP132 versions): encode = reference, decode inverse, mutated strings accepted iff the reference accepts; payloads with a right checksum and a wrong structure (31- or 33-byte key, another compression suffix, q = 0, n or 2^256-1, a foreign or an address prefix; addresses with a 19-, 21- or 0-byte hash, an unknown or a WIF version byte, 78 bytes) accepted iff the structure is a WIF's and never as an address", keys_case, quick=3000, thorough=30000),
     SubCheck("ripemd160", check_ripemd, "pure-Python RIPEMD160 == OpenSSL's on lengths around block boundaries", ripemd_case, quick=1500, thorough=15000),
-    SubCheck("coverage_guided", None, 'atheris / libFuzzer campaign (btclib instrumented, in-process) from arbitrary text over the address, key and URI decoders, seeded with valid addresses and keys: a string witness_from_address accepts (and that has no blanks around it) is re-encoded by address_from_witness to its lower-case self; non-trivial: inputs libFuzzer kept because they reached new coverage',
+    SubCheck("coverage_guided", None, 'atheris / libFuzzer campaign (btclib instrumented, in-process) from arbitrary text over the address, key and URI decoders, seeded with valid addresses and keys: on every input, and on a string the reference checksums for a (hrp, version, program) decoded from the input and then edits character by character, witness_from_address accepts exactly when the BIP173/350 reference does, with its version, program and hrp, and address_from_witness writes back the string of the reference; non-trivial: inputs libFuzzer kept because they reached new coverage',
              units=lambda tier: __import__("checks.c19_fuzz", fromlist=["units"]).units(tier, "C06"), run_unit=lambda unit, col: __import__("checks.c19_fuzz", fromlist=["run_unit"]).run_unit(unit, col, "C06")),
 ]
